@@ -64,10 +64,12 @@ def rule_subtree_edit(ctx, F):
     fn = ctx.need_fn(F, "ts_subtree_edit", "P2")
     if not fn:
         return
-    mk = [pt for pt, e in fn.points() if e.get("k") == "decl" and e["name"] == "result"]
+    res = bind(fn, "result", "ts_subtree_make_mut(pool, *entry.tree)")
+    bind(fn, "child", "&_[i]")
+    mk = [pt for pt, e in fn.points() if e.get("k") == "decl" and e["name"] == res]
     setch = [pt for pt, n in find(fn, "ts_subtree_set_has_changes(&result)")]
     wb = [pt for pt, n in find(fn, "*entry.tree = ts_subtree_from_mut(result)")]
-    child = [pt for pt, e in fn.points() if e.get("k") == "decl" and e["name"] == "child"]
+    child = [pt for pt, e in fn.points() if e.get("k") == "decl" and e["name"] == fn.cur("child")]
     push = [pt for pt, n in find(fn, "_array__grow(...)") if "child_edit" in show(fn.blocks[pt[0]].elems[pt[1] + 2]["e"] if pt[1] + 2 < len(fn.blocks[pt[0]].elems) else {})]
     if not push:
         push = [pt for pt, n, l, op in stores(fn) if "child_edit" in show(n)]
@@ -101,7 +103,7 @@ def rule_subtree_edit(ctx, F):
     else:
         ctx.bad("P2", "ts_subtree_edit:node-extent-includes-lookahead", "`end_byte` in ts_subtree_edit no longer includes the node's look-ahead bytes")
     # inline leaf: rewritten in place only if it still fits; otherwise promoted with every inline field
-    inl = [pt for pt, n, l, op in stores(fn) if writes_record(l, "SubtreeInlineData") and "result" in roots(l)]
+    inl = [pt for pt, n, l, op in stores(fn) if writes_record(l, "SubtreeInlineData") and res in roots(l)]
     ctx.floor("in-place stores into an inline leaf", len(inl), 4)
     ctx.gate("G1", fn, inl, [("the edited leaf still fits the inline representation", "ts_subtree_can_inline(padding, size, lookahead_bytes)", True),
                              ("node is inline", "result.data.is_inline", True)], accept_desc="rewriting an inline leaf in place")
